@@ -249,11 +249,33 @@ func (c *faultConn) beginIfRearmedLocked() {
 	}
 }
 
+// farAway: the request timeout of this case never expires. Its deadlines are not armed on the
+// in-memory pipe: net.Pipe keeps one runtime timer per armed deadline until it fires, even after
+// Close, which over millions of cases pins gigabytes.
+func (c *faultConn) farAway() bool { return c.n.cfg.Timeout >= time.Minute }
+
 func (c *faultConn) SetWriteDeadline(t time.Time) error {
 	c.mu.Lock()
 	c.beginIfRearmedLocked()
 	c.mu.Unlock()
+	if c.farAway() {
+		return c.Conn.SetWriteDeadline(time.Time{}) // still reports a closed pipe
+	}
 	return c.Conn.SetWriteDeadline(t)
+}
+
+func (c *faultConn) SetReadDeadline(t time.Time) error {
+	if c.farAway() {
+		return c.Conn.SetReadDeadline(time.Time{})
+	}
+	return c.Conn.SetReadDeadline(t)
+}
+
+func (c *faultConn) SetDeadline(t time.Time) error {
+	if c.farAway() {
+		return c.Conn.SetDeadline(time.Time{})
+	}
+	return c.Conn.SetDeadline(t)
 }
 
 func (c *faultConn) Write(p []byte) (int, error) {
